@@ -297,6 +297,8 @@ def visit_time_ranges(vobject_item: vobject.base.Component, child_name: str,
                 vobject_item.vevent_list):
             # TODO: check if there's a timezone
             dtstart = child.dtstart.value
+            # The recurrence set yields datetimes even for a DATE value
+            dtstart_is_datetime = isinstance(dtstart, datetime)
 
             if child.rruleset:
                 dtstarts, infinity = getrruleset(child, recurrences)
@@ -316,7 +318,6 @@ def visit_time_ranges(vobject_item: vobject.base.Component, child_name: str,
                 original_duration = duration = duration.value
 
             for dtstart in dtstarts:
-                dtstart_is_datetime = isinstance(dtstart, datetime)
                 dtstart = date_to_datetime(dtstart)
 
                 if dtend is not None:
@@ -454,6 +455,8 @@ def visit_time_ranges(vobject_item: vobject.base.Component, child_name: str,
 
             if dtstart is not None:
                 dtstart = dtstart.value
+                # The recurrence set yields datetimes even for a DATE value
+                dtstart_is_datetime = isinstance(dtstart, datetime)
                 if child.rruleset:
                     dtstarts, infinity = getrruleset(child, recurrences)
                     if infinity:
@@ -462,7 +465,6 @@ def visit_time_ranges(vobject_item: vobject.base.Component, child_name: str,
                     dtstarts = (dtstart,)
 
                 for dtstart in dtstarts:
-                    dtstart_is_datetime = isinstance(dtstart, datetime)
                     dtstart = date_to_datetime(dtstart)
 
                     if dtstart_is_datetime:
